@@ -106,10 +106,13 @@ class C07Probe(EngineProbe):
         self.ignore_module_prefixes = ignore_module_prefixes
         self.c07_past: list[dict] = []  # attributed past emissions
         self.future_lib_emissions = 0
+        self.late_lib_emissions = 0  # library pushes made after the clock left the first instant
+        self._first_t = None
         self.parks = 0
         self.lib_resumes_after_delay = 0
-        self.ring: deque = deque(maxlen=80)
+        self.ring: deque = deque(maxlen=640)
         self.instants = 0  # distinct clock values visited (changes of the delivery time)
+        self.self_rearms: dict[tuple, int] = {}  # near the cap: (class, module, type) re-armed at the same instant
         self._last_t = None
         self._stale_created: dict[int, tuple] = {}
         self._gen_last_t: dict[int, int] = {}
@@ -139,7 +142,7 @@ class C07Probe(EngineProbe):
         stale = self._stale_created
         ring = self.ring
         tl = self._tl
-        near = (self.instant_cap - 70) if self.instant_cap else None
+        near = max(1, self.instant_cap - 620) if self.instant_cap else None
 
         def ev_init(self, *args, **kwargs):
             orig_init(self, *args, **kwargs)
@@ -169,7 +172,7 @@ class C07Probe(EngineProbe):
         def pc_invoke(self):
             if near is not None and getattr(tl, "inst_n", 0) >= near:
                 mod, qual = gen_location(self.process)
-                ring.append((norm_type(self.event_type), type(self.target).__name__, qual, mod))
+                ring.append((norm_type(self.event_type), type(self.target).__name__, qual, mod, self.process))  # strong ref: no id reuse
             gid = id(self.process)
             prev = probe._gen_last_t.get(gid)
             t = self.time.nanoseconds
@@ -193,7 +196,7 @@ class C07Probe(EngineProbe):
         def ev_invoke(self):
             if near is not None and getattr(tl, "inst_n", 0) >= near:
                 cls = _emitter_of(self.target)
-                ring.append((norm_type(self.event_type), cls[0], None, cls[1]))
+                ring.append((norm_type(self.event_type), cls[0], None, cls[1], None))
             t = self.time.nanoseconds
             if t != probe._last_t:
                 probe._last_t = t
@@ -207,10 +210,21 @@ class C07Probe(EngineProbe):
                 et = event.time
                 if et < now:
                     probe._record_past(event, now)
-                elif et > now:
+                else:
                     last = getattr(tl, "last", None)
+                    if near is not None and et == now and last is not None and getattr(tl, "inst_n", 0) >= near:
+                        # who keeps producing work for this very instant?
+                        tcls = _emitter_of(event.target)
+                        if tcls[0] == last[0] and not isinstance(event, PC):
+                            k = (tcls[0], tcls[1], norm_type(event.event_type))
+                            probe.self_rearms[k] = probe.self_rearms.get(k, 0) + 1
                     if last is not None and is_library_module(last[1]):
-                        probe.future_lib_emissions += 1
+                        if et > now:
+                            probe.future_lib_emissions += 1
+                        if probe._first_t is None:
+                            probe._first_t = now
+                        elif now > probe._first_t:
+                            probe.late_lib_emissions += 1
             return inner_push(heap, event)
 
         def park(fut, continuation):
@@ -291,26 +305,38 @@ class C07Probe(EngineProbe):
         return out
 
     def spin_signatures(self) -> list[tuple[str, str, list]]:
-        """[(component, shape, cycle)] for a detected spin, from the ring buffer.
+        """[(component, shape, cycle)] for a detected spin.
 
-        One entry per library generator function that keeps being resumed at the frozen
-        instant (`spin:Mutex.acquire`); when no library generator is involved, one entry
-        for the cycle of (library target class <- event type) pairs.
+        1. a generator that is resumed again and again at the frozen instant (the same process
+           >= 3 times in the last deliveries): `spin:<innermost library generator>`, one entry per
+           function (`spin:Mutex.acquire`) - a zero-delay polling wait;
+        2. else an entity that keeps scheduling an event for itself at the frozen instant:
+           `rearm:<event type>` for that library class (`RateLimitedEntity`, `rearm:rate_limit_poll`);
+        3. else the cycle of (library target class <- event type) pairs.
         """
-        items = list(self.ring)[-60:]
+        items = list(self.ring)[-600:]
         if not items:
             rec = getattr(self, "spin", None)
-            items = [(norm_type(t), n, None, "") for t, n in (rec.recent if rec else [])]
+            items = [(norm_type(t), n, None, "", None) for t, n in (rec.recent if rec else [])]
         steps = []
         for it in items:
             key = (it[0], it[1], it[2], it[3])
             if key not in steps:
                 steps.append(key)
         cyc = [list(s) for s in steps][:20]
-        lib_gen = [s for s in steps if s[2] and is_library_module(s[3])]
-        lib_tgt = [s for s in steps if not s[2] and is_library_module(s[3])]
-        if lib_gen:
-            return [(class_of_qualname(q), f"spin:{q}", cyc) for q in sorted({s[2] for s in lib_gen})]
+        per_proc: dict[int, int] = {}
+        for it in items:
+            if it[4] is not None:
+                per_proc[id(it[4])] = per_proc.get(id(it[4]), 0) + 1
+        pollers = sorted(
+            {it[2] for it in items if it[4] is not None and per_proc[id(it[4])] >= 3 and is_library_module(it[3])}
+        )
+        if pollers:
+            return [(class_of_qualname(q), f"spin:{q}", cyc) for q in pollers]
+        rearm = [(k, n) for k, n in self.self_rearms.items() if n >= 3 and is_library_module(k[1])]
+        if rearm:
+            return [(k[0], f"rearm:{k[2]}", cyc) for k, _ in sorted(rearm)]
+        lib_tgt = [s for s in steps if is_library_module(s[3])]
         if lib_tgt:
             classes = sorted({s[1] for s in lib_tgt})
             shape = "cycle:" + "+".join(sorted({f"{s[1]}<-{s[0]}" for s in lib_tgt}))
@@ -412,20 +438,31 @@ def component_class_table() -> dict[str, dict]:
     from happysimulator.core.entity import Entity
 
     table: dict[str, dict] = {}
-    for m in pkgutil.walk_packages(C.__path__, "happysimulator.components."):
+    import happysimulator.faults as F
+    import happysimulator.instrumentation as I
+    import happysimulator.load as L
+
+    mods = list(pkgutil.walk_packages(C.__path__, "happysimulator.components."))
+    for pkg in (L, F, I):
+        mods += list(pkgutil.walk_packages(pkg.__path__, pkg.__name__ + "."))
+    for m in mods:
         try:
             mod = importlib.import_module(m.name)
         except Exception:  # noqa: BLE001
             continue
+        in_components = m.name.startswith("happysimulator.components.")
         for n, o in vars(mod).items():
             if not (inspect.isclass(o) and o.__module__ == mod.__name__):
                 continue
+            if n.startswith("_") and not in_components:
+                continue
             is_ent = issubclass(o, Entity)
             gens = [k for k, v in o.__dict__.items() if inspect.isgeneratorfunction(v) and not k.startswith("_")]
-            if not (is_ent or gens):
+            is_fault = "generate_events" in o.__dict__ and not in_components
+            if not (is_ent or gens or is_fault):
                 continue
             own = [k for k, v in o.__dict__.items() if inspect.isfunction(v)]
-            entry = [k for k in ("handle_event", "handle_queued_event") if k in o.__dict__] + gens
+            entry = [k for k in ("handle_event", "handle_queued_event", "generate_events") if k in o.__dict__] + gens
             # a no-op handle_event (sync primitives, Resource) is not an entry point
             if "handle_event" in entry and _is_noop(o.__dict__["handle_event"]):
                 others = [k for k in own if not k.startswith("_") and k != "handle_event"]
@@ -433,7 +470,7 @@ def component_class_table() -> dict[str, dict]:
             if not entry:
                 entry = [k for k in own if not k.startswith("__")]
             parts = mod.__name__.split(".")
-            fam = parts[2]
+            fam = parts[2] if in_components else parts[1]
             rel = "/".join(parts[1:])
             table[n] = {"family": fam, "module": rel, "entry": sorted(set(entry))}
     _CLASS_TABLE = table
